@@ -3,6 +3,7 @@ package props
 import (
 	"context"
 	"fmt"
+	"io"
 	"math/rand"
 	"reflect"
 	"strings"
@@ -20,9 +21,9 @@ import (
 
 func init() {
 	Registry["C02"] = Spec{
-		Fn:    c02,
-		Level: "exploration",
-		Rule: "generated (Options, Query, client revision, server revision, compression) executions of Client.Do against the synchronous scripted server: ids/bodies empty/long/non-UTF8, 0..n connection-level and query-level settings with flags, parameters, secret, initial user, quota keys, span contexts, external data with/without table name, input columns drawn from the whole catalogue, one representative revision per interval of the feature table (and both neighbours of every threshold) on either side, {Disabled, None, LZ4, LZ4HC, ZSTD}. The recorded client byte stream is parsed by the reference codec at the negotiated revision and compared field by field with the expectation computed from the caller's inputs; nothing may be left over. Non-trivial = at least one of {settings, parameters, external data, input block, compression}; distinct = (field-presence vector, negotiated revision, compression, input type)",
+		Fn:          c02,
+		Level:       "exploration",
+		Rule:        "generated (Options, Query, client revision, server revision, compression) executions of Client.Do against the synchronous scripted server: ids/bodies empty/long/non-UTF8, 0..n connection-level and query-level settings with flags, parameters, secret, initial user, quota keys, span contexts, external data with/without table name, input columns drawn from the whole catalogue, one representative revision per interval of the feature table (and both neighbours of every threshold) on either side, {Disabled, None, LZ4, LZ4HC, ZSTD}. The recorded client byte stream is parsed by the reference codec at the negotiated revision and compared field by field with the expectation computed from the caller's inputs; nothing may be left over. Non-trivial = at least one of {settings, parameters, external data, input block, compression}; distinct = (field-presence vector, negotiated revision, compression, input type)",
 		Assumptions: []string{"reference stream parser harness/internal/simnet + ref; 'supported window': settings need revision >= 54429 (library limitation recorded under C17), parameters >= 54459 must otherwise be refused before anything is written"},
 		MinDistinct: 200,
 	}
@@ -385,6 +386,56 @@ func c02One(r *core.Run, ci int64, rng *rand.Rand, reps []int) {
 			checkData(np[2], "follow-up-input", "", inp, base+k)
 			r.Count("followup_inserts", 1)
 		}
+	}
+	// a streamed insert on the same connection: the input blocks must arrive in order, each with
+	// the rows its round had (the column memory is reused between rounds)
+	if ci%3 == 0 {
+		col := new(proto.ColUInt64)
+		var rounds [][]ref.Val
+		fillRound := func(n int) {
+			col.Reset()
+			var vals []ref.Val
+			for j := 0; j < n; j++ {
+				x := rng.Uint64()
+				col.Append(x)
+				vals = append(vals, ref.Leaf([]byte{byte(x), byte(x >> 8), byte(x >> 16), byte(x >> 24), byte(x >> 32), byte(x >> 40), byte(x >> 48), byte(x >> 56)}))
+			}
+			rounds = append(rounds, vals)
+		}
+		nr := 2 + rng.Intn(3)
+		per := []int{1, 4, 40, 400}[rng.Intn(4)]
+		fillRound(per)
+		inp = []c02Input{{name: "n", e: val.Entry{Type: "UInt64"}}}
+		before := len(sim.Srv.Packets)
+		var serr error
+		if !runWithWatchdog(60*time.Second, func() {
+			serr = sim.Client.Do(ctx, ch.Query{Body: "INSERT INTO t VALUES", Input: proto.Input{{Name: "n", Data: col}}, OnInput: func(context.Context) error {
+				if len(rounds) >= nr {
+					col.Reset()
+					return io.EOF
+				}
+				fillRound(per + len(rounds))
+				return nil
+			}})
+		}) {
+			r.Inconclusive("streamed insert did not return")
+			return
+		}
+		if serr != nil || sim.Srv.Err != nil {
+			fail("streamed-insert:"+errSite(orErr(sim.Srv.Err, serr)), fmt.Sprintf("streamed insert on a reused connection: Do=%v, server-side parse error=%v", serr, sim.Srv.Err))
+			return
+		}
+		np := sim.Srv.Packets[before:]
+		if len(np) != 2+nr+1 {
+			fail("streamed-insert:packet-sequence", fmt.Sprintf("%d packets for %d rounds", len(np), nr))
+			return
+		}
+		for k := 0; k < nr; k++ {
+			inp[0].vals = rounds[k]
+			checkData(np[2+k], fmt.Sprintf("streamed-input"), "", inp, len(rounds[k]))
+		}
+		checkData(np[2+nr], "streamed-terminator", "", nil, 0)
+		r.Count("streamed_inserts", 1)
 	}
 	fp := fmt.Sprintf("s%d p%d e%d i%v t%v", len(exp.Settings), len(exp.Params), len(ext), inputDesc(inp), tr != nil)
 	if len(exp.Settings)+len(exp.Params)+len(ext)+len(inp) > 0 || compressed {
